@@ -83,6 +83,7 @@ fn main() {
             "srvans" => g_srvans::gen(&mut rng, thorough, &mut em),
             "serverdbg" => g_server::debug_big(&mut rng),
             "zonefile" => g_zonefile::gen(&mut rng, thorough, &mut em),
+            "zonewks" => g_zonefile::gen_wks(&mut rng, thorough, &mut em),
             "include" => g_include::gen(&mut rng, thorough, &mut em),
             "pool" => g_pool::gen(&mut rng, thorough, &mut em),
             "framing" => g_framing::gen(&mut rng, thorough, &mut em),
